@@ -217,6 +217,9 @@ func runGen(cfg *Cfg) {
 			{"features=protoc", false, false},
 			{"features=nosuchfeature", true, false},
 			{"features=fast+nosuchfeature", true, false},
+			{"features=all+nosuchfeature", true, false},
+			{"features=nosuchfeature+all", true, false},
+			{"features=all", false, true},
 			{"features=", true, false},
 		} {
 			resp, _, err := pluginRun(plugin, mk(pc.param))
